@@ -148,4 +148,43 @@ func checkC12(c *Ctx) {
 	c.RunJobs(filterJobs(jobs), 4)
 }
 
-func (c *Ctx) lexerFlagJobs() []Job { return nil }
+func (c *Ctx) lexerFlagJobs() []Job {
+	maxN := 3
+	if !c.Quick() {
+		maxN = 4
+	}
+	var jobs []Job
+	saved := LexSpecs
+	defer func() { LexSpecs = saved }()
+	var subset []*LexSpec
+	for _, l := range saved {
+		if l.Name == "L01" || l.Name == "L04" || l.Name == "L07" || (!c.Quick() && (l.Name == "L03" || l.Name == "L05")) {
+			subset = append(subset, l)
+		}
+	}
+	LexSpecs = subset
+	jobs = append(jobs, c.c01Jobs(maxN, "-debug_lexer")...)
+	if c.Quick() {
+		// -zip and -v do not touch the lexer package: one small grammar suffices in the quick tier
+		LexSpecs = subset[len(subset)-1:]
+		jobs = append(jobs, c.c01Jobs(2, "-zip", "-v")...)
+	} else {
+		jobs = append(jobs, c.c01Jobs(maxN, "-zip", "-v")...)
+	}
+	// positions/tiling of the debug build on abstract tables
+	g, err := c.Generate("atlex_debug", atLexGrammar, "-debug_lexer")
+	if err != nil || g.Exit != 0 {
+		c.Inconclusive = append(c.Inconclusive, fmt.Sprintf("gocc -debug_lexer failed on the abstract-table grammar: %v", err))
+		return jobs
+	}
+	t := g.Target("lexer", "genlexer/at.go")
+	for n := 0; n <= maxN; n++ {
+		jobs = append(jobs, Job{
+			Name:   fmt.Sprintf("debug-lexer scan-step N=%d", n),
+			Target: t,
+			Run:    SymRun{Harness: "VerifC08Step", Params: map[string]int{"N": n}, LoopBound: 16, LoopBounds: map[string]int{"Scan": n + 3}},
+			Bounds: fmt.Sprintf("Scan generated with -debug_lexer on abstract tables, every source of %d bytes: same position/tiling specification as the plain build (C08)", n),
+		})
+	}
+	return jobs
+}
